@@ -4,7 +4,6 @@ package c08
 
 import (
 	"bytes"
-	"expvar"
 	"fmt"
 	"image"
 	"image/color"
@@ -13,7 +12,6 @@ import (
 	"os"
 	"runtime"
 	"sort"
-	"strings"
 	"time"
 
 	"seehuhn.de/go/membudget"
@@ -413,7 +411,7 @@ func decodeAndCheck(e *core.Env, g *getter, dict pdf.Dict, body, globals []byte,
 	t := e.T
 	var ms0, ms1 runtime.MemStats
 	runtime.ReadMemStats(&ms0)
-	work0 := workNow()
+	work0 := core.WorkNow()
 	var rc io.ReadCloser
 	var err error
 	budgetBytes := int64(8<<20) + 1024*int64(len(body))
@@ -506,8 +504,8 @@ func decodeAndCheck(e *core.Env, g *getter, dict pdf.Dict, body, globals []byte,
 	// last one must not expand (ASCIIHex, ASCII85), otherwise the last stage
 	// legitimately works on an intermediate stream that is neither the input
 	// nor the output.
-	if workCounter != nil && workQualifies(names) {
-		ticks := workNow() - work0
+	if core.WorkActive() && workQualifies(names) {
+		ticks := core.WorkNow() - work0
 		in := int64(len(body) + len(globals))
 		e.Probe("work bound evaluated")
 		calib(ticks, in, int64(drained), budgetBytes, names, closeAt >= 0, drained > limit)
@@ -551,7 +549,7 @@ var corners = map[string]func(e *core.Env){
 	// Regression for b50e8ef: a halftone region with an empty but very tall
 	// grid (HGW=0, HGH=2^32-1) ran its per-row loops 2^32 times per bit plane.
 	"jbig2-halftone-empty-grid": func(e *core.Env) {
-		if workCounter == nil {
+		if !core.WorkActive() {
 			return
 		}
 		u32 := func(v uint32) []byte { return []byte{byte(v >> 24), byte(v >> 16), byte(v >> 8), byte(v)} }
@@ -578,7 +576,7 @@ var corners = map[string]func(e *core.Env){
 			body = append(body, seg(3, 49, nil, nil)...)
 			// the source stops serving once the bound is exceeded, so that a
 			// regression costs seconds, not minutes
-			work0 := workNow()
+			work0 := core.WorkNow()
 			f, _ := pdf.MakeFilter("JBIG2Decode", nil)
 			done := make(chan int, 1)
 			go func() {
@@ -596,13 +594,13 @@ var corners = map[string]func(e *core.Env){
 				select {
 				case <-done:
 				case <-time.After(50 * time.Millisecond):
-					if workNow()-work0 <= bound {
+					if core.WorkNow()-work0 <= bound {
 						continue
 					}
 				}
 				break
 			}
-			if ticks := workNow() - work0; ticks > bound {
+			if ticks := core.WorkNow() - work0; ticks > bound {
 				e.Fail("work", map[string]string{"filter": "JBIG2Decode"}, "halftone grid %dx%d: more than %d work ticks for a %d byte stream", dims[0], dims[1], bound, len(body))
 				return
 			}
@@ -669,27 +667,6 @@ var corners = map[string]func(e *core.Env){
 			}
 		}
 	},
-}
-
-// workCounter is the work counter that the instrumentation overlay
-// (cmd/instr -mode work) adds to the decoder packages: one tick per function
-// entry and per loop iteration.  It is the simulated time of a decode.
-var workCounter = func() []expvar.Func {
-	var out []expvar.Func
-	expvar.Do(func(kv expvar.KeyValue) {
-		if f, ok := kv.Value.(expvar.Func); ok && strings.HasPrefix(kv.Key, "verif.work.") {
-			out = append(out, f)
-		}
-	})
-	return out
-}()
-
-func workNow() int64 {
-	var n int64
-	for _, f := range workCounter {
-		n += f.Value().(int64)
-	}
-	return n
 }
 
 // The work bound is K * (per-stream budget + output), where the per-stream
